@@ -329,6 +329,13 @@ func Edit(t *rapid.T, s *Schema, o Opts, protect map[string]bool) string {
 		if o.NoGenerated {
 			return ""
 		}
+		// half of the time an existing generated column only changes its storage (STORED <-> VIRTUAL)
+		for i, c := range tb.Cols {
+			if c.Gen != "" && rapid.Bool().Draw(t, "storageonly") {
+				tb.Cols[i].GenStored = !c.GenStored
+				return "generated-storage"
+			}
+		}
 		for i, c := range tb.Cols {
 			if c.Gen != "" {
 				tb.Cols = append(tb.Cols[:i], tb.Cols[i+1:]...)
